@@ -197,14 +197,19 @@ type c14Case struct {
 	Flush    string // none, first, each
 	Declare  bool
 	Interim  int
+	Entity   int // bodiless response that declares this entity length (HEAD, 304); 0 = none
 }
 
 func (c c14Case) String() string {
-	return fmt.Sprintf("L=%d pos=%s %s status=%d writes=%v flush=%s declare=%v interim=%d", c.L, c.Position, c.Method, c.Status, c.Comp, c.Flush, c.Declare, c.Interim)
+	return fmt.Sprintf("L=%d pos=%s %s status=%d writes=%v flush=%s declare=%v interim=%d entity=%d", c.L, c.Position, c.Method, c.Status, c.Comp, c.Flush, c.Declare, c.Interim, c.Entity)
 }
 
 func (c c14Case) prog() *hprog {
-	return &hprog{Status: c.Status, Header: []wire.HeaderLine{{"Content-Type", "text/plain"}, {"X-Prog", "1"}}, Parts: partsOf(c.Comp, 5),
+	hd := []wire.HeaderLine{{"Content-Type", "text/plain"}, {"X-Prog", "1"}}
+	if c.Entity > 0 {
+		hd = append(hd, wire.HeaderLine{"Content-Length", fmt.Sprint(c.Entity)})
+	}
+	return &hprog{Status: c.Status, Header: hd, Parts: partsOf(c.Comp, 5),
 		FlushFirst: c.Flush == "first", FlushEach: c.Flush == "each", DeclareLen: c.Declare, Interim: c.Interim}
 }
 
@@ -365,6 +370,18 @@ func TestVerifC14(t *testing.T) {
 					}
 				}
 			}
+			// bodiless responses that declare the length of the entity they stand for (what every
+			// real HEAD / 304 answer does): no body byte travels, so they are within any limit
+			for _, ms := range []struct {
+				m string
+				s int
+			}{{"HEAD", 200}, {"HEAD", 0}, {"HEAD", 404}, {"GET", 304}, {"HEAD", 304}} {
+				for _, n := range []int{L, L + 1, 100 * L} {
+					for _, fl := range []string{"none", "first"} {
+						run(c14Case{L: L, Position: pos, Method: ms.m, Status: ms.s, Comp: []int{}, Flush: fl, Entity: n})
+					}
+				}
+			}
 			// request direction
 			for _, n := range []int{0, L - 1, L, L + 1, 4 * L} {
 				for _, chunked := range []bool{false, true} {
@@ -459,6 +476,31 @@ func TestVerifC14(t *testing.T) {
 								r.Violate(strings.Replace(key, "C14/", "C14/proxied/", 1), fmt.Sprintf("%s: %s", c, what), n*10+1, map[string]interface{}{"engine": "W", "test": "TestVerifC14", "mount": "proxy", "case": c})
 							}
 						}
+					}
+				}
+			}
+			// HEAD / 304 answers declaring the entity's length, through the proxy
+			for _, ms := range []struct {
+				m string
+				s int
+			}{{"HEAD", 200}, {"HEAD", 404}, {"GET", 304}} {
+				for _, n := range []int{L, L + 1, 100 * L} {
+					sc := &wire.Script{Status: ms.s, Header: []wire.HeaderLine{{"Content-Type", "text/plain"}, {"Content-Length", fmt.Sprint(n)}}}
+					req := &wire.Request{Method: ms.m, Target: "/p", Header: []wire.HeaderLine{{"Host", "x.test"}}, NoBody: true}
+					be.Next(sc)
+					rw := ew.do(req, dl)
+					be.Next(sc)
+					ro := eo.do(req, dl)
+					be.Next(nil)
+					evals++
+					c := c14Case{L: L, Position: "proxy-" + pos, Method: ms.m, Status: ms.s, Comp: []int{}, Flush: "none", Entity: n}
+					key, what := c14JudgeResponse(c, rw, ro)
+					if key == "tool" {
+						t.Fatalf("%s: %s", c, what)
+					}
+					outs.Add(fmt.Sprintf("proxy-entity/%d->%d/%v", ms.s, rw.Status, key == ""))
+					if key != "" {
+						r.Violate(strings.Replace(key, "C14/", "C14/proxied/", 1), fmt.Sprintf("%s: %s", c, what), 1, map[string]interface{}{"engine": "W", "test": "TestVerifC14", "mount": "proxy", "case": c})
 					}
 				}
 			}
